@@ -72,6 +72,10 @@ class AntiSymmetricTensor(SymbolicTensor):
             if bra_ket_sym not in [S.One, S.NegativeOne]:
                 raise Inputerror("Invalid bra ket symmetry given "
                                  f"{bra_ket_sym}. Valid are 0, 1 or -1.")
+            # bra-ket antisymmetry forces the diagonal to vanish:
+            # d^{pq}_{pq} = - d^{pq}_{pq} = 0
+            if bra_ket_sym is S.NegativeOne and list(upper) == list(lower):
+                return S.Zero
             if cls._need_bra_ket_swap(upper, lower):
                 upper, lower = lower, upper  # swap
                 if bra_ket_sym is S.NegativeOne:  # add another -1
@@ -219,6 +223,10 @@ class SymmetricTensor(AntiSymmetricTensor):
             if bra_ket_sym not in [S.One, S.NegativeOne]:
                 raise Inputerror("Invalid bra ket symmetry given "
                                  f"{bra_ket_sym}. Valid are 0, 1 or -1.")
+            # bra-ket antisymmetry forces the diagonal to vanish:
+            # d^{pq}_{pq} = - d^{pq}_{pq} = 0
+            if bra_ket_sym is S.NegativeOne and list(upper) == list(lower):
+                return S.Zero
             if cls._need_bra_ket_swap(upper, lower):
                 upper, lower = lower, upper  # swap
                 if bra_ket_sym is S.NegativeOne:
